@@ -77,6 +77,8 @@ func main() {
 	switch prop {
 	case "C05":
 		cmdC05(*tier, *seed, *out, *stats, *replay)
+	case "C15":
+		cmdC15(*tier, *seed, *out, *stats, *replay)
 	case "C14":
 		cmdC14(*tier, *seed, *out, *stats, *replay)
 	case "PKG", "C01", "C02", "C03", "C04", "C08", "C09":
